@@ -96,6 +96,7 @@ class StoreHandler:
 
     def __init__(self, stores, plan=None, switch_after=None, catch_all=False):
         self.catch_all = catch_all  # C06: any URL with a '..' component is answered, so that a write would happen
+        self.stale = {}   # url -> (bytes, mtime): what a half-synced server still answers under fault "stale" / "stale-no-length"
         self.stores = stores if isinstance(stores, list) else [stores]
         self.plan = plan or {}
         self.switch_after = switch_after  # number of requests after which the next store is served
@@ -129,6 +130,13 @@ class StoreHandler:
             return Resp("missing")
         data, mtime = obj
         if fault is None:
+            self.body_log.append(url)
+            return Resp("ok", announced=len(data), date=mtime, data=data, chunks=chunks_of(len(data)), tag=self.tag)
+        if fault in ("stale", "stale-no-length") and url in self.stale:
+            sdata, smtime = self.stale[url]
+            return Resp("ok", announced=len(sdata) if fault == "stale" else None, date=smtime, data=sdata, chunks=chunks_of(len(sdata)), tag=self.tag)
+        if fault in ("stale", "stale-no-length"):
+            fault = None
             self.body_log.append(url)
             return Resp("ok", announced=len(data), date=mtime, data=data, chunks=chunks_of(len(data)), tag=self.tag)
         if fault == "wrong-length":
